@@ -49,7 +49,7 @@ func c13Snippets() []string {
 	return []string{
 		"{call b.x}{param p: $a /}{/call}{call c.y data=\"all\"/}",
 		"{call c.y}{param q}z{$a}{/param}{/call}{call b.x/}{call .local/}",
-		"{$a|truncate:3}{$a|insertWordBreaks:2}{$a|changeNewlineToBr}{$a|escapeUri}",
+		"{$a|truncate:3}{$a|insertWordBreaks:2}{$a|changeNewlineToBr}{$a|escapeUri}{$x|noAutoescape|truncate:8}{$x|id|truncate:4|changeNewlineToBr}",
 		"{length($l)}{keys($m)}{augmentMap($m, ['z': 1, 'y': 2])}{round(1.5)}{max(1, 2)}{strContains($x, 'x')}",
 		"{['k3': 3, 'k1': 1, 'k2': ['n2': 2, 'n1': 1], 'k0': $a]}",
 		"{let $mm: ['b': 2, 'a': 1, 'c': $a] /}{$mm}{$mm.a}{foreach $k in keys(['only': 1])}{$k}{/foreach}",
@@ -126,10 +126,39 @@ func c13Run(files map[string]string, order []string) map[string]string {
 			obs["js "+cfg.name+" "+f.Name] = buf.String() + errClass(err)
 		}
 	}
+	// repetitions within the process: a second emission and a second render must be byte-identical.
+	for _, f := range reg.SoyFiles {
+		var buf bytes.Buffer
+		err := soyjs.Write(&buf, f, soyjs.Options{})
+		obs["again:js es5 "+f.Name] = buf.String() + errClass(err)
+	}
+	{
+		var buf bytes.Buffer
+		err := tofu.NewRenderer("a.main").Inject(data.Map{"inj": data.String("I")}).Execute(&buf, d)
+		obs["again:render data0 msgs=false"] = buf.String() + errClass(err)
+	}
 	return obs
 }
 
+// c13ErrorBundles: bundles rejected with an error that lists several names.
+func c13ErrorBundles() map[string]string {
+	callee := "/**\n * @param alpha\n * @param beta\n * @param gamma\n * @param? delta\n */\n{template .callee}\n{$alpha}{$beta}{$gamma}{$delta ?: ''}\n{/template}\n"
+	return map[string]string{
+		"missing required params": "{namespace e}\n/** */\n{template .m}\n{call .callee/}\n{/template}\n" + callee,
+		"missing two of three":    "{namespace e}\n/** */\n{template .m}\n{call .callee}{param beta: 1 /}{/call}\n{/template}\n" + callee,
+		"undeclared call params":  "{namespace e}\n/** */\n{template .m}\n{call .callee data=\"all\"}{param zeta: 1 /}{param eta: 2 /}{param theta}x{/param}{/call}\n{/template}\n" + callee,
+		"unused params":           "{namespace e}\n/**\n * @param p1\n * @param p2\n * @param p3\n */\n{template .m}\nx\n{/template}\n",
+		"unused lets":             "{namespace e}\n/** */\n{template .m}\n{let $l1: 1 /}{let $l2: 2 /}{let $l3}x{/let}y\n{/template}\n",
+		"unbound reference":       "{namespace e}\n/**\n * @param p1\n * @param p2\n */\n{template .m}\n{$p1}{$p2}{let $v: 1 /}{$v}{$nope}\n{/template}\n",
+		"bad attribute":           "{namespace e}\n/** */\n{template .m bogus=\"1\"}\nx\n{/template}\n",
+		"unexpected token":        "{namespace e}\n/** */\n{template .m}\n{if true}x{/foreach}\n{/template}\n",
+		"bad literal":             "{namespace e}\n/** */\n{template .m}\n{[1 2]}{['a': 1, 2]}\n{/template}\n",
+		"duplicate global":        "{namespace e}\n/** */\n{template .m}\n{UNDEFINED_GLOBAL}{OTHER.UNDEF}\n{/template}\n",
+	}
+}
+
 func checkC13(c *Ctx) {
+	c13ErrorTexts(c)
 	snips := c13Snippets()
 	names := []string{"a.soy", "b.soy", "c.soy"}
 	perms := [][]int{{0, 1, 2}, {0, 2, 1}, {1, 0, 2}, {1, 2, 0}, {2, 0, 1}, {2, 1, 0}}
@@ -200,6 +229,13 @@ func checkC13(c *Ctx) {
 					if first == nil {
 						continue
 					}
+					// repetitions within one process
+					for k, v := range first {
+						if strings.HasPrefix(k, "again:") && first[strings.TrimPrefix(k, "again:")] != v {
+							c.Violate("repeating the same emission or render in one process yields byte-identical results", "mismatch", "repetition:"+aspectClass(strings.TrimPrefix(k, "again:"))+":"+sig, cs,
+								clip(first[strings.TrimPrefix(k, "again:")]), clip(v))
+						}
+					}
 					// across insertion orders
 					if strings.HasPrefix(first["compile"], "error") {
 						errTexts[first["compile"]] = true
@@ -243,6 +279,58 @@ func checkC13(c *Ctx) {
 				}
 			}
 		}
+	}
+}
+
+func c13ErrorTexts(c *Ctx) {
+	bundles := c13ErrorBundles()
+	var names []string
+	for n := range bundles {
+		names = append(names, n)
+	}
+	sort.Strings(names)
+	for _, n := range names {
+		if !c.Mine() {
+			continue
+		}
+		src := bundles[n]
+		cs := c13case{Files: map[string]string{"e.soy": src}}
+		var first string
+		run := func() string {
+			_, err := soy.NewBundle().AddTemplateString("e.soy", src).Compile()
+			if err == nil {
+				return "accepted"
+			}
+			return err.Error()
+		}
+		check := func(v vrt.Verdict, prefix []int, got string) {
+			cs.MapOrder = prefix
+			if v.Panic != nil || v.Exhausted {
+				c.Violate("compiles", "panic", "panic:error bundle "+n, cs, "returns", fmt.Sprint(v.Panic, v.Exhausted))
+				return
+			}
+			if first == "" {
+				first = got
+				if got == "accepted" {
+					c.Violate("fixture is rejected", "mismatch", "fixture:"+n, cs, "an error", "accepted")
+				}
+			} else if got != first {
+				c.Violate("the same sources always yield the same error text", "mismatch", "error-text-order:"+n, cs, first, got+fmt.Sprintf(" under map order %v", prefix))
+			}
+		}
+		if c.Instr() {
+			var got string
+			st := explore(vrt.Options{Fuel: 20000000, MapChoice: true, FixedSched: true}, 3, 20000, func() { got = run() }, func(v vrt.Verdict, prefix []int) { check(v, prefix, got) })
+			c.Count("map_orders_explored", st.Execs)
+		} else {
+			for rep := 0; rep < 200; rep++ {
+				var got string
+				v := vrt.Run(vrt.Options{}, func() { got = run() })
+				check(v, nil, got)
+			}
+		}
+		c.Observe("errbundle:"+n, first)
+		c.Nontrivial()
 	}
 }
 
